@@ -15,8 +15,8 @@ Definition lblank (b : bytes) : bool := forallb (fun c => asp c && negb (N.eqb c
    excluded) does not fit the scanner buffer ends the scan with ErrTooLong. *)
 Fixpoint scan (acc : bytes) (bs : bytes) : list bytes :=
   match bs with
-  | [] => match acc with [] => [] | _ => [rev acc] end
-  | b :: r => if N.eqb b LF then rev acc :: scan [] r else scan (b :: acc) r
+  | [] => match acc with [] => [] | _ => [frev acc] end
+  | b :: r => if N.eqb b LF then frev acc :: scan [] r else scan (b :: acc) r
   end.
 
 Definition lines (bs : bytes) : list bytes := scan [] bs.
@@ -41,8 +41,8 @@ Definition scan_lines (maxtok : N) (bs : bytes) : list bytes * scan_end :=
 
 (* dropCR of bufio.ScanLines: one trailing CR removed *)
 Definition drop_cr (l : bytes) : bytes :=
-  match rev l with
-  | c :: r => if N.eqb c CR then rev r else l
+  match frev l with
+  | c :: r => if N.eqb c CR then frev r else l
   | [] => l
   end.
 
